@@ -491,12 +491,42 @@ _ADDENDA10 = {
            "Feedback subclass constructor re-runs the base constructor after it failed (R11).",
 }
 _ADDENDA11 = {
+    'C01': "The resolver is also called as resolve(report=r) with another report in scope as MAIN_REPORT.",
+    'C02': "resolve(report=r) answers for r (shared driver rule).",
+    'C03': "A second resolve after a suppression or flag change reflects the current state (shared driver rule).",
     'C04': "A compile error whose SyntaxError carries no position, text or file name (null byte) is rendered by pedal's "
-           "real traceback classes under every version switch and every shipped formatter without raising (R7).",
-    'C09': "The end-of-scope unused report is decided by executing witness programs (never read, `_`, read afterwards).",
+           "real traceback classes under every version switch and every shipped formatter without raising (R7); no "
+           "tracer's __exit__ swallows a student exception, bdb.BdbQuit included (R8); the helper that words the "
+           "exception's class name accepts every name a class can have, the empty one included.",
+    'C05': "An execution that starts while another is active builds patch objects of its own (class-level objects are "
+           "evaluated once per modelled process).",
+    'C06': "Trace callbacks only store the values they take from the student's frames (R10); timeout() returns what "
+           "the function returned, so a student file imported in threaded mode is the module (R11); Sandbox.call / "
+           "evaluate hand back the student's own object in every threading mode.",
+    'C07': "Sandbox.get_context(id) ends with that execution's own context whatever groups are open.",
+    'C08': "The submission's main code is the text submitted, character for character (R10, shared with C12.R8); the "
+           "program-identity histories use texts a tidying step would alter.",
+    'C09': "The end-of-scope unused report is decided by executing witness programs; a second analysis by the same TIFA "
+           "object records all of its issues; the section text and offset rules of C17 are claimed as R7/R8.",
+    'C10': "No function of pedal.cait writes module- or class-level state, directly, through a local alias or by a "
+           "shallow copy of a template (R7).",
+    'C11': "find_matches itself is run across verify/replace histories: what it returns was matched against the tree of "
+           "the code asked for now.",
     'C12': "A SyntaxError without a file name is carried from verify() through the real syntax_error / "
            "ExpandedTraceback / formatter chain without raising (R9); the frame pedal makes up for a SyntaxError is "
            "built by executing build_traceback for errors with and without a position.",
+    'C13': "The who-writes inventory follows local aliases of module-level objects and flags shallow copies of "
+           "module-level templates whose entries are mutable.",
+    'C14': "EXCEPTION_FF_MAP, whatever kind of table it is, answers for TimeoutError with the class registered for "
+           "TimeoutError (R9).",
+    'C15': "commands.run / commands.call hand the sandbox the inputs object they were given, empty ones included (R6).",
+    'C16': "Sandbox.call / evaluate hand back a proxy of the student's own object in every threading mode (R10).",
+    'C17': "make_resolver triggers the resolve event on every call, also after a call whose resolver function raised.",
+    'C18': "The section offset rule of C17.R3 is claimed as R6s; the issue for a call statement whose caller has no name "
+           "is constructed without raising under every shipped formatter (R7).",
+    'C19': "TifaCore._issue records every issue, also in a second analysis by the same object (R9, shared with C09.R6).",
+    'C20': "FeedbackFieldWrapper.__getattr__ / __getitem__ forward to the value's own attribute or item whatever its "
+           "name (R12).",
 }
 for _k, _v in _ADDENDA11.items():
     CLAIMS[_k]['text'] = CLAIMS[_k]['text'].rstrip() + ' ' + _v
